@@ -183,6 +183,27 @@ let parse_shape06 (s : ostring) : shape =
   | ["TokenResult"] -> TokenResult
   | _ -> failwith ("shape " ^ s)
 
+(* ---- C04/C05: resolution skeleton ---- *)
+let sk_ident (tok : ostring) =
+  let body = Stdlib.String.sub tok 1 (Stdlib.String.length tok - 1) in
+  let digits = body <> "" && (let ok = ref true in Stdlib.String.iter (fun c -> if c < '0' || c > '9' then ok := false) body; !ok) in
+  if digits then sk_num (z_of_dec body) else sk_name (bytes_of_string body)
+let sk_ns s = Model.sk_ns (nat_of_int (match s with "type" -> 0 | "comdat" -> 1 | "global" -> 2 | "attr" -> 3 | _ -> 4))
+let sk_split c s = if s = "" then [] else Stdlib.String.split_on_char c s
+let sk_top (t : ostring) : top =
+  match Stdlib.String.split_on_char '|' t with
+  | [ns; id; kind; uses; blocks; baddrs] ->
+    let dummy = sk_num Z0 in
+    let k = if kind = "opaque" then sk_kind (nat_of_int 1) dummy else if Stdlib.String.length kind > 6 && Stdlib.String.sub kind 0 6 = "alias:" then sk_kind (nat_of_int 2) (sk_ident (Stdlib.String.sub kind 6 (Stdlib.String.length kind - 6))) else sk_kind (nat_of_int 0) dummy in
+    let us = List.map (fun u -> match Stdlib.String.index_opt u '=' with
+      | Some i -> mk_use (sk_ns (Stdlib.String.sub u 0 i)) (sk_ident (Stdlib.String.sub u (i+1) (Stdlib.String.length u - i - 1))) | None -> failwith "use") (sk_split ',' uses) in
+    let bs = List.map sk_ident (sk_split ',' blocks) in
+    let bas = List.map (fun u -> match Stdlib.String.index_opt u '=' with
+      | Some i -> (sk_ident (Stdlib.String.sub u 0 i), sk_ident (Stdlib.String.sub u (i+1) (Stdlib.String.length u - i - 1))) | None -> failwith "baddr") (sk_split ',' baddrs) in
+    mk_top (sk_ns ns) (Some (sk_ident id)) k us bs bas
+  | _ -> failwith "top"
+let sk_outcome n = match int_of_nat n with 0 -> "Ok" | 1 -> "Err" | _ -> "Panic"
+
 (* ---- dispatch: kind -> inputs -> outputs ---- *)
 let eval (kind : ostring) (ins : ostring list) : ostring list =
   match kind, ins with
@@ -248,6 +269,7 @@ let eval (kind : ostring) (ins : ostring list) : ostring list =
       (Stdlib.String.split_on_char ',' ents) in
     [if c08_print_after_parse l then "Ok" else "Err"]
   | "md_assign", [ids] -> [match c17_assign (ints_of ids) with Some r -> "Ok " ^ of_ints r | None -> "Err"]
+  | "skeleton", [tops] -> [sk_outcome (sk_translate (List.map sk_top (sk_split ';' tops)))]
   | _ -> failwith ("unknown kind " ^ kind)
 
 let () =
